@@ -132,3 +132,10 @@ func (y *YieldCtl) Stats() (hits map[int]int, sig uint64, nhits int64, pauses in
 	}
 	return hits, y.sig, y.nhits, y.pausedN
 }
+
+// HasPaused reports whether a goroutine is parked at a yield point.
+func (y *YieldCtl) HasPaused() bool {
+	y.mu.Lock()
+	defer y.mu.Unlock()
+	return len(y.paused) > 0
+}
